@@ -138,6 +138,48 @@ def load(gd_arg, **kw):
     return CompaSOHaloCatalog(gd_arg, **kw)
 
 
+_FRESH = r'''
+import sys, json, hashlib
+sys.path.insert(0, %(verif)r)
+from simcore import boot
+boot.setup()
+boot.register_asdf_extension()
+import numpy as np
+from e2_world import catalog as C
+kw = json.loads(%(kw)r)
+cat = C.load(%(gd)r, **kw)
+out = {}
+for c in cat.halos.colnames:
+    a = np.asarray(cat.halos[c])
+    out[c] = hashlib.sha256(repr((str(a.dtype), a.shape)).encode() + a.tobytes()).hexdigest()
+sys.stdout.write('FRESH ' + json.dumps(out))
+'''
+
+
+def column_digests(t):
+    import hashlib
+    out = {}
+    for c in t.colnames:
+        a = np.asarray(t[c])
+        out[c] = hashlib.sha256(repr((str(a.dtype), a.shape)).encode() + a.tobytes()).hexdigest()
+    return out
+
+
+def fresh_process_columns(gd, **kw):
+    """The same load in a new interpreter that has loaded nothing before: the reference for 'depends only on the
+    catalogue files and the options' when the case has a history.  Returns {column: digest} or raises RuntimeError."""
+    import json
+    import subprocess
+    import sys
+    from simcore import boot
+    code = _FRESH % {'verif': boot.VERIF, 'kw': json.dumps(kw), 'gd': str(gd)}
+    env = dict(os.environ, PYTHONHASHSEED='0', PYTHONWARNINGS='ignore')
+    p = subprocess.run([sys.executable, '-c', code], capture_output=True, text=True, timeout=600, env=env)
+    if p.returncode != 0 or 'FRESH ' not in p.stdout:
+        raise RuntimeError('fresh-process reference failed: ' + (p.stderr or p.stdout)[-400:])
+    return json.loads(p.stdout.split('FRESH ', 1)[1])
+
+
 def table_bytes(t):
     out = {}
     for c in t.colnames:
